@@ -270,6 +270,7 @@ def trace_normal_form(log, qubits):
 
 
 def schedule_correspondence(ctx):
+    application_correspondence(ctx)
     from common import g_list
 
     hdr = "From Coq Require Import List. Import ListNotations.\nFrom Yaqs Require Import Model.DigitalLoop Model.Checker."
@@ -307,6 +308,51 @@ def schedule_correspondence(ctx):
                           "not every gate exactly once on its own side", {"oracle": "schedule", **c})
 
 
+def application_correspondence(ctx):
+    """apply_gate on a random merged tensor theta[o1,o2,l,i1,i2,r] vs the entry formulas of LinAlg/TT.v (lact / ract): from the left
+    new[O,I] = sum_O' G[O,O'] theta[O',I]; conjugated from the right new[O,I] = sum_I' conj(G[I,I']) theta[O,I'], where G is the
+    standard matrix of the gate on (site n, site n+1), the lower site most significant."""
+    import mqt.yaqs.digital.utils.mpo_utils as MU
+    from drivers.C18 import NPAR, live_gate, qiskit_matrix
+
+    rng = ctx.rng
+    one = ["x", "y", "h", "sx", "rx", "ry", "rz", "p", "u2", "u"]
+    two = ["cx", "cz", "cp", "swap", "rxx", "ryy", "rzz"]
+    for k in range(ctx.scale(80, 1200)):
+        n = int(rng.integers(0, 5))
+        name = str(rng.choice(one if k % 3 == 0 else two))
+        angles = [float(x) for x in rng.uniform(-3, 3, size=NPAR.get(name, 0))] if name in NPAR else []
+        g = live_gate(name, angles)
+        ref = qiskit_matrix(name, angles)
+        if name in one:
+            site = n + int(rng.integers(0, 2))
+            g.set_sites(site)
+            G = np.kron(ref, np.eye(2)) if site == n else np.kron(np.eye(2), ref)
+            sites = [site]
+        else:
+            a, b = (n, n + 1) if rng.random() < 0.5 else (n + 1, n)
+            g.set_sites(a, b)
+            G = ref if a < b else ref.reshape(2, 2, 2, 2).transpose(1, 0, 3, 2).reshape(4, 4)
+            sites = [a, b]
+        lft, r = int(rng.integers(1, 4)), int(rng.integers(1, 4))
+        theta = rng.normal(size=(2, 2, lft, 2, 2, r)) + 1j * rng.normal(size=(2, 2, lft, 2, 2, r))
+        conj = bool(k % 2)
+        try:
+            out = MU.apply_gate(g, theta.copy(), n, n + 1, conjugate=conj)
+        except Exception as e:  # noqa: BLE001
+            ctx.mismatch("apply_gate vs TT.lact/ract", {"gate": name, "sites": sites, "pair": [n, n + 1], "conjugate": conj}, repr(e), "-", key="application")
+            continue
+        th = theta.transpose(0, 1, 3, 4, 2, 5).reshape(4, 4, lft, r)  # [O, I, l, r]
+        want = np.einsum("ab,bicd->aicd", G, th) if not conj else np.einsum("ij,ajcd->aicd", np.conj(G), th)
+        got = np.asarray(out).transpose(0, 1, 3, 4, 2, 5).reshape(4, 4, lft, r)
+        ctx.case(nontrivial_key=("apply", name, tuple(sites), conj), validated=True)
+        ctx.count("application_right_conjugated" if conj else "application_left")
+        if got.shape != want.shape or not np.allclose(got, want, atol=1e-12):
+            ctx.mismatch("apply_gate vs TT.lact/ract (entries of G.O from the left, O.G^dagger for the conjugated right application)",
+                         {"gate": name, "angles": angles, "sites": sites, "pair": [n, n + 1], "conjugate": conj},
+                         float(np.max(np.abs(got - want))) if got.shape == want.shape else list(got.shape), 0.0, key="application")
+
+
 def pair_oracle(args):
     from qiskit import QuantumCircuit
     from qiskit.quantum_info import Operator
@@ -315,8 +361,8 @@ def pair_oracle(args):
 
     rng = np.random.default_rng(args["seed"])
     n = args["n"]
-    base = rand_circuit(rng, n, args["m"])
     kind = args["kind"]
+    base = rand_circuit(rng, n, args["m"], long_range=(kind != "near-product"))
     if kind == "equivalent":
         other = QuantumCircuit(n)
         for ci in base.data:  # re-synthesis: h = rz ry style rewrites that keep the unitary (up to phase)
@@ -331,17 +377,32 @@ def pair_oracle(args):
                 other.p(ci.operation.params[0], qs[0])  # equal up to a global phase
             else:
                 other.append(ci.operation, qs)
+    elif kind == "near-product":
+        # the circuits differ by small trailing rotations on SEVERAL qubits: U1.U2^dagger is a product of one-site factors, each
+        # close to the identity; the overlap is the product of the per-qubit overlaps
+        other = base.copy()
+        qs = [q for q in range(n) if rng.random() < 0.7] or [0]
+        if len(qs) < 2:
+            qs = list(range(min(n, 2)))
+        for q in qs:
+            getattr(other, str(rng.choice(["rz", "rx", "ry"])))(args["eps"], q)
     else:
         other = base.copy()
         other.rz(args["eps"], int(rng.integers(0, n)))
     u1, u2 = msb(Operator(base).data, n), msb(Operator(other).data, n)
     overlap = float(abs(np.trace(u1.conj().T @ u2)) / 2**n)
     fid = args["fidelity"]
+    if kind == "near-product":
+        # a fidelity between the overlap and the smallest per-qubit overlap (must be rejected), or just below the overlap (must be accepted)
+        per_qubit = float(np.cos(args["eps"] / 2))
+        fid = (overlap + per_qubit) / 2 if args.get("above", True) else overlap - 0.4 * (per_qubit - overlap)
     for a, b, tag in ((base, other, "as given"), (other, base, "swapped")):
         with common.time_limit(200):
             got = bool(EC.run(a, b, threshold=args["threshold"], fidelity=fid)["equivalent"])
         if overlap < fid - 1e-6 and got:
             return f"reported EQUIVALENT ({tag}) for overlap {overlap:.6f} < fidelity {fid} (n={n}, {kind}, eps={args.get('eps')})"
+        if kind == "near-product" and overlap >= fid + 1e-6 and not got:
+            return f"reported NOT equivalent ({tag}) for overlap {overlap:.6f} >= fidelity {fid:.6f} (n={n}, small rotations on several qubits)"
         if kind == "equivalent" and not got:
             return f"reported NOT equivalent ({tag}) for a re-synthesised circuit (overlap {overlap:.12f}, fidelity {fid}, n={n})"
     return None
@@ -355,6 +416,9 @@ def search(ctx):
         eps = float(ctx.rng.choice([0.1, 0.2, 0.3, 0.45, 0.7]))
         plan.append(dict(seed=int(ctx.rng.integers(0, 2**31)), n=int(ctx.rng.integers(2, 6)), m=int(ctx.rng.integers(2, 9)), kind=kind,
                          eps=eps, fidelity=fid, threshold=float(ctx.rng.choice([1e-13, 1e-11, 1e-9]))))
+    for k in range(ctx.scale(10, 120)):
+        plan.append(dict(seed=int(ctx.rng.integers(0, 2**31)), n=int(ctx.rng.integers(2, 7)), m=int(ctx.rng.integers(0, 7)), kind="near-product",
+                         eps=float(ctx.rng.choice([0.1, 0.2, 0.25, 0.3])), fidelity=None, above=bool(k % 3), threshold=float(ctx.rng.choice([1e-13, 1e-11]))))
     for a in plan:
         try:
             why = pair_oracle(a)
